@@ -120,13 +120,25 @@ func TestCheck(t *testing.T) {
 		_ = hello
 		helloByProto[proto] = hello
 	}
+	// a backend slower than the proxy's own timeouts (server as the binary builds it: write/read 60 s, idle 180 s)
+	for _, proto := range []string{"h1", "h2"} {
+		for _, k := range []int{30, 61, 125, 200} {
+			for v := 0; v < 3; v++ {
+				cases = append(cases, faults.Case{Kind: "slow-backend", Proto: proto, K: k, Val: v})
+			}
+		}
+	}
 	rep.Info["cases_total"] = len(cases)
 	for i, cs := range cases {
 		if i%of != shard {
 			continue
 		}
 		cs := cs
-		res := faults.Run(t, cs, baseOpts(), helloByProto["h2"], func(env *faults.Env) {
+		opts := baseOpts()
+		if cs.Kind == "slow-backend" {
+			opts = binaryStack("10s", "180s")
+		}
+		res := faults.Run(t, cs, opts, helloByProto["h2"], func(env *faults.Env) {
 			rep.Add("evaluations", 1)
 			rep.Note("distinct_nontrivial", fmt.Sprintf("%s/%s/ops=%d/bytes=%d", cs.Kind, cs.Proto, env.Ops, env.Bytes))
 			rep.Sample(map[string]any{"case": cs.String(), "server_io_ops_on_victim_conn": env.Ops, "victim_bytes_on_wire": env.Bytes})
